@@ -1,0 +1,17 @@
+//go:build verif
+
+package vnet
+
+import (
+	"io"
+
+	v1 "github.com/fatedier/frp/pkg/config/v1"
+)
+
+// VerifNewControllerWithTun returns a Controller whose TUN device is dev (what Init would have opened),
+// so that the controller and the virtual_net plugin can be driven without a kernel device or privileges.
+func VerifNewControllerWithTun(cfg v1.VirtualNetConfig, dev io.ReadWriteCloser) *Controller {
+	c := NewController(cfg)
+	c.tun = dev
+	return c
+}
